@@ -7,11 +7,19 @@ TZif file itself) cross-checked with the C library (`time.mktime` / `time.localt
 
 request kinds
   {"kind":"rt","args":[y,mo,d,h,mi,s,ms],"us":0..999}   datetimeNew (+ optional extra microseconds) -> datetimeISOFormat -> datetimeISOParse
-  {"kind":"parse","text":"..."}                 datetimeISOParse of arbitrary text (+ reference offset if the text is a valid ISO datetime)
-  {"kind":"arith","args":[...],"n":int,"as_int":bool}   (d + n) - d through evaluate_expression
+  {"kind":"parse","text":"...","sub":bool}      datetimeISOParse of arbitrary text (optionally as a str subclass), by value_parse_datetime, by the library
+                                                function and through evaluate_expression (+ reference offset if the text is a valid ISO datetime)
+  {"kind":"arith","args":[...],"n":int,"as_int":bool,"us":0..999}   (d + n) - d through evaluate_expression (d optionally with extra microseconds)
+  {"kind":"host", ...}                          a HOST-supplied datetime (sub-millisecond, timezone-aware, fold=1, datetime/date subclass, plain date) and a
+                                                host-supplied number (int/float subclass, IntEnum): (d + n) - d, (n + d) - d, ((d + n) + m) - (d + n) through
+                                                evaluate_expression or execute_script, and the ISO round trip of d (see host())
+
+TZ may also be a POSIX fixed-offset string '<-0330>3:30' (any whole-minute offset, no tz database entry needed); the reference zone is then
+datetime.timezone(<that offset>).
 """
 
 import datetime
+import enum
 import json
 import os
 import re
@@ -20,10 +28,19 @@ import time
 import zoneinfo
 
 sys.path.insert(0, sys.argv[1])
-from bare_script import library, runtime, value  # noqa: E402  pylint: disable=wrong-import-position
+from bare_script import library, parser, runtime, value  # noqa: E402  pylint: disable=wrong-import-position
 
 ZONE = os.environ['TZ']
-Z = zoneinfo.ZoneInfo(ZONE)
+_FIXED = re.fullmatch(r'<([+-])([0-9]{2})([0-9]{2})>(-?)([0-9]{1,2})(?::([0-9]{2}))?', ZONE)
+if _FIXED:
+    # POSIX fixed offset: the name in <> is the ISO sign convention, the number after it the POSIX one (west positive); both must agree
+    _MIN = (int(_FIXED.group(2)) * 60 + int(_FIXED.group(3))) * (-1 if _FIXED.group(1) == '-' else 1)
+    _POSIX_MIN = (int(_FIXED.group(5)) * 60 + int(_FIXED.group(6) or 0)) * (1 if _FIXED.group(4) == '-' else -1)
+    if _MIN != _POSIX_MIN:
+        raise SystemExit('inconsistent fixed-offset TZ string ' + ZONE)
+    Z = datetime.timezone(datetime.timedelta(minutes=_MIN))
+else:
+    Z = zoneinfo.ZoneInfo(ZONE)
 UTC = datetime.timezone.utc
 FN = library.SCRIPT_FUNCTIONS
 
@@ -143,21 +160,168 @@ def num_out(x):
     return {'inexact': repr(x)}
 
 
-def arith(args, n, as_int):
+def arith(args, n, as_int, us=0):
     d, _ = call('datetimeNew', [float(a) for a in args])
     if d is None:
         return {'d': None}
     nv = int(n) if as_int else float(n)
     out = {'d': parts(d)}
+    if us:
+        d = d.replace(microsecond=d.microsecond + us)       # sub-millisecond host datetime; `d` in the answer stays the value cut to the millisecond
     for key, expr in (('lr', EXPR_LR), ('rl', EXPR_RL)):
         try:
             out[key] = num_out(runtime.evaluate_expression(expr, None, {'d': d, 'n': nv}))
         except Exception as exc:  # pylint: disable=broad-except
             out[key] = {'error': type(exc).__name__}
     try:
-        out['sum'] = parts(runtime.evaluate_expression(EXPR_SUM, None, {'d': d, 'n': nv}))
+        out['sum'] = parts_floor(runtime.evaluate_expression(EXPR_SUM, None, {'d': d, 'n': nv}))
     except Exception as exc:  # pylint: disable=broad-except
         out['sum'] = {'error': type(exc).__name__}
+    return out
+
+
+class HostDatetime(datetime.datetime):
+    """What a host application may hand over: its own subclass of datetime."""
+
+
+class HostDate(datetime.date):
+    pass
+
+
+class HostInt(int):
+    pass
+
+
+class HostStr(str):
+    pass
+
+
+EXPR_PARSE = {'function': {'name': 'datetimeISOParse', 'args': [{'variable': 't'}]}}
+
+
+class HostFloat(float):
+    pass
+
+
+def host_number(n, nkind):
+    if nkind == 'int':
+        return int(n)
+    if nkind == 'intsub':
+        return HostInt(n)
+    if nkind == 'floatsub':
+        return HostFloat(n)
+    if nkind == 'intenum':
+        return enum.IntEnum('HostEnum', {'N': int(n)}).N        # pylint: disable=no-member
+    return float(n)
+
+
+def parts_floor(d):
+    """[y, mo, d, h, mi, s, ms] cut to the millisecond (sub-millisecond datetimes are legal host values), None for null."""
+    if d is None:
+        return None
+    if not isinstance(d, datetime.datetime):
+        return {'error': 'not-a-datetime:' + type(d).__name__}
+    if d.tzinfo is not None:
+        return {'error': 'aware-datetime'}
+    return [d.year, d.month, d.day, d.hour, d.minute, d.second, d.microsecond // 1000]
+
+
+def iso_block(d_impl, loc):
+    """ISO text round trip of the value d_impl as the implementation sees it; loc = the naive local datetime it denotes (reference)."""
+    out = {}
+    text, err = call('datetimeISOFormat', [d_impl])
+    out['text'] = text if isinstance(text, str) else {'error': str(err or type(text).__name__)}
+    dtext, err = call('datetimeISOFormat', [d_impl, True])
+    out['datetext'] = dtext if isinstance(dtext, str) else {'error': str(err or type(dtext).__name__)}
+    if isinstance(text, str):
+        p, err = call('datetimeISOParse', [text])
+        out['p'] = parts(p) if err is None else {'error': err}
+        out['ref'] = ref_offset_at(text)
+    if isinstance(dtext, str):
+        p, err = call('datetimeISOParse', [dtext])
+        out['pd'] = parts(p) if err is None else {'error': err}
+    zi_ok, zi_off = zi_exists(loc)
+    lc_ok, lc_off = libc_exists(loc)
+    try:
+        os_off = secs(loc.astimezone().utcoffset())
+    except (OverflowError, ValueError, OSError):
+        os_off = None
+    out['fold'] = bool(zi_ok) and loc.replace(tzinfo=Z, fold=1).utcoffset() != loc.replace(tzinfo=Z, fold=0).utcoffset()
+    out.update({'zi_exists': zi_ok, 'zi_off': zi_off, 'libc_exists': lc_ok, 'libc_off': lc_off, 'os_off': os_off})
+    return out
+
+
+HOST_SCRIPT = parser.parse_script('''\
+e = d + n
+r1 = e - d
+r2 = (n + d) - d
+r3 = (e + m) - e
+r4 = (m + e) - e
+return arrayNew(r1, r2, e, r3, r4)
+''')
+
+
+def host_value(req):
+    """The host-supplied datetime of a request -> (value handed to the implementation, naive local datetime it denotes per the
+    reference zone, the same per the C library)"""
+    y, mo, dd, h, mi, s, ms = req['p']
+    us = ms * 1000 + req.get('us', 0)
+    cls = req.get('cls', 'datetime')
+    if cls in ('date', 'datesub'):
+        d = (HostDate if cls == 'datesub' else datetime.date)(y, mo, dd)
+        loc = datetime.datetime(y, mo, dd)
+        return d, loc, loc
+    tz = req.get('tz')
+    if tz is None:
+        tzinfo = None
+    elif isinstance(tz, str):
+        tzinfo = UTC if tz == 'utc' else zoneinfo.ZoneInfo(tz)
+    else:
+        tzinfo = datetime.timezone(datetime.timedelta(minutes=tz))
+    d = (HostDatetime if cls == 'sub' else datetime.datetime)(y, mo, dd, h, mi, s, us, tzinfo=tzinfo, fold=1 if req.get('fold') else 0)
+    if tzinfo is None:
+        return d, d, d
+    try:
+        # through UTC: astimezone(d.tzinfo) would be the identity. fold=0: BareScript datetimes are naive local values and the C library's
+        # astimezone() never marks the second pass of a repeated hour, so an aware instant there denotes the (ambiguous) wall time
+        loc = d.astimezone(UTC).astimezone(Z).replace(tzinfo=None, fold=0)
+    except OverflowError:
+        loc = None
+    try:
+        loc_os = d.astimezone().replace(tzinfo=None)
+    except (OverflowError, ValueError, OSError):
+        loc_os = None
+    return d, loc, loc_os
+
+
+def host(req):
+    d, loc, loc_os = host_value(req)
+    out = {'local': parts_floor(loc), 'local_us': None if loc is None else loc.microsecond % 1000, 'agree': loc is not None and loc == loc_os}
+    if loc is None:
+        return out
+    nv = host_number(req['n'], req.get('nkind', 'float'))
+    mv = host_number(req.get('m', 0), 'float')
+    if req.get('via') == 'script':
+        try:
+            res = runtime.execute_script(HOST_SCRIPT, {'globals': {'d': d, 'n': nv, 'm': mv}, 'maxStatements': 1000})
+            if not isinstance(res, list) or len(res) != 5:
+                raise TypeError('script result ' + type(res).__name__)
+            out.update({'lr': num_out(res[0]), 'rl': num_out(res[1]), 'sum': parts_floor(res[2]), 'e_lr': num_out(res[3]), 'e_rl': num_out(res[4])})
+        except Exception as exc:  # pylint: disable=broad-except
+            out.update({'lr': {'error': type(exc).__name__}})
+    else:
+        e = None
+        try:
+            e = runtime.evaluate_expression(EXPR_SUM, None, {'d': d, 'n': nv})
+            out['sum'] = parts_floor(e)
+        except Exception as exc:  # pylint: disable=broad-except
+            out['sum'] = {'error': type(exc).__name__}
+        for key, expr, var_d, var_n in (('lr', EXPR_LR, d, nv), ('rl', EXPR_RL, d, nv), ('e_lr', EXPR_LR, e, mv), ('e_rl', EXPR_RL, e, mv)):
+            try:
+                out[key] = num_out(runtime.evaluate_expression(expr, None, {'d': var_d, 'n': var_n}))
+            except Exception as exc:  # pylint: disable=broad-except
+                out[key] = {'error': type(exc).__name__}
+    out.update(iso_block(d, loc))
     return out
 
 
@@ -171,28 +335,14 @@ def handle(req):
         if req.get('us'):
             # a datetime with sub-millisecond precision, as datetimeNow() or the host can produce; `d` stays the value cut to the millisecond
             d = d.replace(microsecond=d.microsecond + req['us'])
-        text, err = call('datetimeISOFormat', [d])
-        out['text'] = text if isinstance(text, str) else {'error': str(err or type(text).__name__)}
-        dtext, err = call('datetimeISOFormat', [d, True])
-        out['datetext'] = dtext if isinstance(dtext, str) else {'error': str(err or type(dtext).__name__)}
-        if isinstance(text, str):
-            p, err = call('datetimeISOParse', [text])
-            out['p'] = parts(p) if err is None else {'error': err}
-            out['ref'] = ref_offset_at(text)
-        if isinstance(dtext, str):
-            p, err = call('datetimeISOParse', [dtext])
-            out['pd'] = parts(p) if err is None else {'error': err}
-        zi_ok, zi_off = zi_exists(d)
-        lc_ok, lc_off = libc_exists(d)
-        try:
-            os_off = secs(d.astimezone().utcoffset())
-        except (OverflowError, ValueError, OSError):
-            os_off = None
-        out['fold'] = bool(zi_ok) and d.replace(tzinfo=Z, fold=1).utcoffset() != d.replace(tzinfo=Z).utcoffset()
-        out.update({'zi_exists': zi_ok, 'zi_off': zi_off, 'libc_exists': lc_ok, 'libc_off': lc_off, 'os_off': os_off})
+        if req.get('fold'):
+            d = d.replace(fold=1)       # the host names the second pass of a repeated local time (PEP 495)
+        out.update(iso_block(d, d))
         return out
+    if kind == 'host':
+        return host(req)
     if kind == 'parse':
-        text = req['text']
+        text = HostStr(req['text']) if req.get('sub') else req['text']      # a host may hand over its own subclass of str
         try:
             p = value.value_parse_datetime(text)
             out = {'p': parts(p)}
@@ -200,10 +350,14 @@ def handle(req):
             out = {'p': {'error': type(exc).__name__}}
         p2, err = call('datetimeISOParse', [text])
         out['lib'] = parts(p2) if err is None else {'error': err}
-        out['ref'] = ref_offset_at(text)
+        try:
+            out['ex'] = parts(runtime.evaluate_expression(EXPR_PARSE, {'globals': dict(FN)}, {'t': text}))
+        except Exception as exc:  # pylint: disable=broad-except
+            out['ex'] = {'error': type(exc).__name__}
+        out['ref'] = ref_offset_at(req['text'])
         return out
     if kind == 'arith':
-        return arith(req['args'], req['n'], req.get('as_int', False))
+        return arith(req['args'], req['n'], req.get('as_int', False), req.get('us', 0))
     return {'bad': kind}
 
 
